@@ -176,6 +176,9 @@ func (e *Env) Thorough() bool { return e.Tier == "thorough" }
 // QuickScale multiplies the quick-tier case counts.
 const QuickScale = 4
 
+// ThoroughScale multiplies the thorough-tier case counts (a thorough run takes minutes).
+const ThoroughScale = 3
+
 func (e *Env) N(quick, thorough int) int {
 	// QuickScale: the quick tier runs a multiple of the per-check base counts (they were sized
 	// when a quick run took 1-3 s; a quick run may take half a minute)
@@ -184,7 +187,7 @@ func (e *Env) N(quick, thorough int) int {
 		n = thorough
 	}
 	if e.Thorough() {
-		n = thorough
+		n = thorough * ThoroughScale
 	}
 	per := n / e.Shards
 	if e.Shard < n%e.Shards {
